@@ -8,7 +8,7 @@ import re
 
 from .. import AnalysisError, rx, flow
 from ..fold import RegexVal
-from ..srcmodel import walk_local, norm, dotted, guards
+from ..srcmodel import walk_local, norm, dotted, guards, literals
 from . import common, families as F
 
 from . import forward
@@ -56,6 +56,16 @@ def _config_words(ctx):
                              f"silently ignored / not handed to the description", key=f"TBL|Config.{tname}|{name}")
 
 
+def _by_position(ctx):
+    """each found Twp/Rge is rewritten where it stands (not every occurrence of its characters)"""
+    fi = ctx.repo.func('plss_preprocess:sub_scrubber')
+    bad = common.replace_by_text(ctx, fi)
+    ctx.check(not bad, 'SINK', 'sub_scrubber rewrites the matched span, not the matched text wherever it occurs',
+              detail_bad=f"`{norm(bad[0])[:70] if bad else ''}` replaces by text: a short Twp/Rge that is a prefix of a later one "
+                         f"('T4N-R9:' / 'T4N-R97:') rewrites the later one too, which is then read with the wrong range",
+              key="SINK|sub_scrubber|bytext", where=common.loc(fi, bad[0]) if bad else None)
+
+
 def check(ctx):
     tw = 'rgxlib.twprge'
     g = lambda n: ctx.fold.get(tw, n)
@@ -101,6 +111,7 @@ def check(ctx):
     ctx.attempt(lockdown, ctx.repo.func('PLSSDesc.preprocess'), only=('default_ns', 'default_ew', 'ocr_scrub'))
     ctx.attempt(common.embedded_case_consistency, modules=('rgxlib.twprge',))
     ctx.attempt(_config_words)
+    ctx.attempt(_by_position)
 
 
 def _tables(ctx):
@@ -356,8 +367,17 @@ def calltime_defaults(ctx, rule='GLOBALS'):
                      for st in walk_local(fi.node))
             ok = ok or any(isinstance(st, ast.Assign) and norm(st.targets[0]) == p and (f"MasterConfig.{p}" in norm(st.value) or f"MC.{p}" in norm(st.value))
                            for st in walk_local(fi.node))
-            ctx.shape(ok, rule, f"{fi.qualname}: {p} resolved from MasterConfig inside the call",
-                      why="no body assignment from MasterConfig recognised")
+            fallbacks = [st for st in walk_local(fi.node) if isinstance(st, ast.Assign) and norm(st.targets[0]) == p
+                         and ((f"{p} is None", True) in [(t, pol) for _e, t, pol in literals(guards(st))]
+                              or (p, False) in [(t, pol) for _e, t, pol in literals(guards(st))])]
+            frozen = [st for st in fallbacks
+                      if not ({f"MasterConfig.{p}", f"MC.{p}"} & flow.prov_attrs(flow.provenance(fi.node, st.value)))]
+            ctx.tri(ok and not frozen, bool(frozen), rule, f"{fi.qualname}: {p} resolved from MasterConfig inside the call",
+                    detail_bad=f"`{norm(frozen[0]) if frozen else ''}`: an omitted {p} no longer falls back to MasterConfig.{p} "
+                               f"but to a fixed value: after MasterConfig is reconfigured this route keeps the old direction "
+                               f"while the description parser follows the new one",
+                    key=f"{rule}|{fi.qualname}|{p}|frozen-fallback", where=common.loc(fi, frozen[0]) if frozen else None,
+                    why="no body assignment from MasterConfig recognised")
 
 
 def _callsites_pass(ctx, fi, p, rule):
